@@ -13,7 +13,11 @@ verus! {
     ensures m == mk_match(aut, sid, index as nat, at as int)
 //@@ end
 
+// C19: `steps` is a ghost counter incremented at the (single) next_state call site; the loop
+// invariant `steps <= at - input.start` is "at most one automaton transition per byte".
 //@@ fn src/automaton.rs | fn try_find_fwd_imp<A: Automaton + ?Sized>(
+//@@ sub 1 /sid = aut\.next_state\(anchored, sid, input\.haystack\(\)\[at\]\);/ => proof { steps = steps + 1; } sid = aut.next_state(anchored, sid, input.haystack()[at]);
+//@@ sub 1 /while at < input\.end\(\) \{/ => let ghost mut steps: int = 0; while at < input.end() {
 //@@ header
     requires
         aut_wf(aut), input.wf(), input.span.start <= input.span.end,
@@ -40,7 +44,7 @@ verus! {
             anchored is Yes && at > input.span.start ==> aut.dead_s(sid) || !aut.startst_s(sid),
             pre is Some && mat is Some ==> aut.post_match(sid),
             earliest ==> mat is None,
-            // C19: one transition per byte — `steps` counts next_state calls
+            steps <= at - input.span.start, // [C19] one transition per byte
             find_spec(aut, anchored, earliest, input.haystack@, input.span.start as int, input.span.end as int)
                 == scan(aut, anchored, earliest, input.haystack@, fstart(anchored, input.span.start as int),
                         input.span.end as int, at as int, sid, mat),
